@@ -272,6 +272,23 @@ def gen_cases(tier, rnd):
             sc["allow_redundant_or"] = False
             runs.append((ts, sc, "shacl"))
         cases.append({"runs": runs, "meta": {"i": i, "stream": stream}})
+    # class runs whose typing constraints are ignored (namespaces_to_ignore covers the instantiation property): a class
+    # WITH instances can then have an empty shape and still be referenced (run kind "shexc_ign", implementation only)
+    for i in range(3000 if tier == "thorough" else 150):
+        r = random.Random(rnd.getrandbits(48))
+        ts = pipe.gen_graph(r, general=(i % 3 != 0))
+        cfg = c05_cfg(r, ts, i)
+        if i % 3 == 1:
+            # a node whose only statement is its class membership, referenced by an instance of another class
+            e_ = "http://ex.org/"
+            subj = [t[0] for t in ts if t[1] == pipe.RDF_TYPE and t[0][0] == "I"]
+            if subj:
+                ts = list(ts) + [(("I", e_ + "lone%d" % i), pipe.RDF_TYPE, ("I", e_ + "Lone")),
+                                 (r.choice(subj), e_ + "pl", ("I", e_ + "lone%d" % i))]
+        cfg["ign"] = ["http://www.w3.org/1999/02/22-rdf-syntax-ns#"]
+        cfg["remove_empty_shapes"] = r.random() < 0.7
+        cfg["thr"] = r.choice([[0, 1], [1, 2], [1, 1], [2, 3]])
+        cases.append({"runs": [(ts, cfg, "shexc_ign")], "meta": {"i": i, "stream": "no-typing-constraint"}})
     # documents that cross the serialiser's 5000-line buffer (once; thorough: twice): the text returned as a string
     # must still declare every prefix and define every referenced shape (what is flushed must not be lost)
     for nclasses in ([900] if tier != "thorough" else [900, 1800]):
@@ -331,6 +348,11 @@ def root_cause(check, ts, cfg):
         return "rc_custom_shapes_namespace"
     if check == "labels_distinct" and shared_local_names(ts, cfg):
         return "rc_shared_local_name"
+    if check in ("refs_resolve", "node") and cfg.get("ign") and cfg["remove_empty_shapes"] and any(
+            cfg["tau"].startswith(n_) for n_ in cfg["ign"]):
+        # the data: typing constraints are ignored and empty shapes are removed: a class with instances can lose its
+        # shape while the shapes of its referrers keep '@:Class' (finding C05-F4)
+        return "rc_reference_to_emptied_class"
     return None
 
 
@@ -345,6 +367,18 @@ def fallback_prefix_ok(text, cfg):
     if not re.match(r"^[A-Za-z]([A-Za-z0-9_.-]*[A-Za-z0-9_-])?$", p):
         return "fallback prefix %r is not a PN_PREFIX" % p
     return None
+
+
+_impl_other_before_ign = pipe.impl_other
+
+
+def _impl_other_c05(ts, cfg, kind, timeout=10.0):
+    if kind == "shexc_ign":
+        return pipe.impl_shexc(ts, cfg, timeout=timeout, extra_kw={"namespaces_to_ignore": list(cfg["ign"])})
+    return _impl_other_before_ign(ts, cfg, kind, timeout)
+
+
+pipe.impl_other = _impl_other_c05
 
 
 class Spec(pipeprops.PropSpec):
@@ -400,7 +434,7 @@ class Spec(pipeprops.PropSpec):
             kind = rn[2] if len(rn) > 2 else "shexc"
             if res[0] != "ok":
                 continue                      # crashes are C04's subject
-            if kind in ("shexc", "shexc_only", "shexc_map", "shexc_ttl", "shexc_file"):
+            if kind in ("shexc", "shexc_only", "shexc_map", "shexc_ttl", "shexc_file", "shexc_ign"):
                 n += 1
                 bad = recognise(res[1])
                 if bad is not None and kind == "shexc" and not pipemap.is_map(cfg) and in_proved_domain(ts, cfg):
